@@ -7,7 +7,7 @@
 From Coq Require Import List ZArith Bool.
 From LV Require Import Gen.Consts_C03 Gen.Funs_C03 Region.RegionDefs
      Wire.CountsModel Wire.CountsProofs Wire.CapsModel Wire.UpdateModel Wire.CapsProofs
-     Wire.S2CModel Wire.S2CProofs Region.RegionProofs Wire.InsideProofs.
+     Wire.S2CModel Wire.S2CProofs Region.RegionProofs Wire.InsideProofs Wire.ModelProofs.
 Import ListNotations.
 Local Open Scope Z_scope.
 
@@ -91,7 +91,10 @@ Example C03_count_tight_unknown_nonvacuous :
   count_tight true 0 0 64 64 = 0 /\ count_tight true 0 0 63 65 = 1 /\ count_tight false 0 0 64 64 = 1.
 Proof. repeat split; reflexivity. Qed.
 
-(* every encoding (generic = one header per region rectangle; Raw needs w,h >= 1): the emission of
+(* every encoding (generic = one header per region rectangle; Raw needs w,h >= 1).  For a [pref] that is not
+   one of the ten pixel encodings (nor -1) the model emits one header where the C switch has no case and
+   emits nothing: such a value is unreachable (C03_caps_state: pref_ok), the statement is meant for
+   pref_ok values.  The emission of
    one non-degenerate region rectangle has as many headers as rfbSendFramebufferUpdate counts for
    it, never traps, and stays inside the rectangle *)
 Theorem C03_count_generic : forall pref lastrect cmw cmh r, 1 <= cmw -> 1 <= cmh -> nondeg r ->
@@ -132,29 +135,68 @@ Example C03_update_count_nonvacuous :
   emitted_len (emit_region enc_CoRRE false 48 48 [(0, 0, 100, 50); (0, 50, 10, 10)]) = Some 7.
 Proof. split; reflexivity. Qed.
 
-(* MAIN COUNT THEOREM.  The count stage of /repo since dccedf3 (repair of F5: explicit lastRectMode flag,
-   an update that would announce 65535 or more rectangles is coalesced to its bounding box and counted
-   again; [announce_fixed] is what the model runs, props/C03.py confirms from the source on every run that
-   the repair is present).  FULL statement: the announced count is the number of rectangle headers that
-   follow, LastRect termination only for a Tight client that enabled LastRect -- no hypothesis about
-   65535 any more, only that the copy rectangles plus the splitting of ONE bounding box fit the field.
-   (C03_update_count_partial / C03_lastrect_mode_partial / C03_count_*_refuted above and below describe
-   the count stage BEFORE dccedf3, function [announce]; they are kept because the corpus witnesses of F5
-   are still replayed against them when the repair is reverted.) *)
-Theorem C03_update_count : forall pref lastrect cmw cmh maxrects region ncopy npseudo n region' lm,
-  1 <= cmw -> 1 <= cmh -> Forall nondeg region -> region <> [] -> 0 <= ncopy -> 0 <= npseudo <= 6 ->
-  (forall kb, emitted_len (emit_region pref lastrect cmw cmh [bbox_of region]) = Some kb -> ncopy + kb + 6 < 65535) ->
-  announce_fixed pref lastrect cmw cmh maxrects region ncopy npseudo = Some (n, region', lm) ->
+(* COUNT STAGE WITH BOTH REPAIRS ([announce_fixed true]: dccedf3 = explicit lastRectMode flag + bounding box of
+   the update region when the total would reach 0xFFFF; notes/fix_C03_6.diff = when that is not enough because
+   the COPY rectangles alone reach the field size, they are merged into the update region and sent as pixels).
+   The announced count is the number of rectangle headers that follow; LastRect termination only for a Tight
+   client that enabled LastRect.  No hypothesis on the number of region rectangles, none on the number of
+   copy rectangles, the empty region (pseudo-rectangle-only and copy-only updates) is covered.
+   Remaining hypothesis, hence the name: the splitting of ONE rectangle -- the bounding box of everything --
+   by the preferred encoding, plus the six possible pseudo-rectangles, fits the 16-bit field (false only for
+   CoRRE on screens of more than about 150 million pixels).  Arithmetic is over Z: the C code computes in
+   32-bit int, the theorems are about geometries with w*h < 2^31 (every framebuffer up to 32767 x 32767). *)
+Theorem C03_update_count_partial_bbox : forall pref lastrect cmw cmh maxrects region copyl npseudo n region' lm keep,
+  1 <= cmw -> 1 <= cmh -> Forall nondeg region -> Forall nondeg copyl -> 0 <= npseudo <= 6 ->
+  (forall n2 lrm2, count_stage pref lastrect cmw cmh (bbox_region (bbox_region region ++ copyl)) = Some (n2, lrm2) ->
+                   lrm2 = false -> n2 + 6 < 65535) ->
+  announce_fixed true pref lastrect cmw cmh maxrects region copyl npseudo = Some (n, region', lm, keep) ->
   (lm = true -> n = 65535 /\ lastrect = true /\ is_tight_class pref = true) /\
   (lm = false -> exists k, emitted_len (emit_region pref lastrect cmw cmh region') = Some k /\
-                           n = ncopy + k + npseudo /\ n < 65535).
+                           n = (if keep then Z.of_nat (length copyl) else 0) + k + npseudo /\ n < 65535).
 Proof. exact update_count_fixed. Qed.
 
-Example C03_update_count_fixed_flow_nonvacuous :
-  (exists r', announce_fixed enc_Raw false 48 48 0 (repeat (0, 0, 1, 1) (Z.to_nat 300)) 65400 0 = Some (65401, r', false)) /\
-  announce_fixed enc_Tight true 48 48 50 [(0, 0, 64, 64)] 0 0 = Some (65535, [(0, 0, 64, 64)], true) /\
-  announce_fixed enc_CoRRE false 48 48 50 [(0, 0, 100, 50); (0, 50, 10, 10)] 2 1 = Some (10, [(0, 0, 100, 50); (0, 50, 10, 10)], false).
+Example C03_update_count_partial_bbox_nonvacuous :
+  (exists r', announce_fixed true enc_Raw false 48 48 0 (repeat (0, 0, 1, 1) (Z.to_nat 300)) (repeat (5, 5, 1, 1) (Z.to_nat 100)) 0
+              = Some (400, r', false, true)) /\
+  announce_fixed true enc_Tight true 48 48 50 [(0, 0, 64, 64)] [] 0 = Some (65535, [(0, 0, 64, 64)], true, true) /\
+  announce_fixed true enc_CoRRE false 48 48 50 [(0, 0, 100, 50); (0, 50, 10, 10)] [(1, 1, 2, 2); (3, 3, 1, 1)] 1
+    = Some (10, [(0, 0, 100, 50); (0, 50, 10, 10)], false, true) /\
+  announce_fixed true enc_Raw false 48 48 50 [] [] 3 = Some (3, [], false, true).
 Proof. exact announce_fixed_examples. Qed.
+
+(* F24 (finding of the audit, reproduced on /repo ec71507, corpus/C03/F24_copy_count_wrap.script): the first repair
+   alone ([announce_fixed false] = /repo since dccedf3) still wraps when the COPY rectangles reach the field size:
+   65535 copy rectangles announce the LastRect sentinel without LastRect, 65536 announce 0; with the second
+   stage the same input announces 1 and sends 1 *)
+Theorem C03_count_wrap_copy_refuted :
+  announce_fixed false enc_Raw false 48 48 50 [] (repeat (0, 0, 1, 1) (Z.to_nat 65535)) 0 = Some (65535, [], false, true) /\
+  announce_fixed false enc_Raw false 48 48 50 [] (repeat (0, 0, 1, 1) (Z.to_nat 65536)) 0 = Some (0, [], false, true) /\
+  (exists r k, announce_fixed true enc_Raw false 48 48 50 [] (repeat (0, 0, 1, 1) (Z.to_nat 65536)) 0 = Some (1, [r], false, false) /\
+               emitted_len (emit_region enc_Raw false 48 48 [r]) = Some k /\ k = 1).
+Proof. exact count_wrap_copy_witness. Qed.
+
+(* C03_update_count_model: what the correspondence run executes.  For an unscaled client whose regions are well
+   formed and whose requestedRegion lies inside the screen ([snap_ok]), with both repairs in the source, an
+   update predicted by [model_update] announces exactly the number of headers it contains -- pseudo-rectangles,
+   copy rectangles and the rectangles of the splitting loops together -- and that number is below 65535;
+   non-degeneracy is DERIVED (C11 set semantics), not assumed. *)
+Theorem C03_update_count_model_unscaled : forall g c sn c' n hs ovf,
+  g_wrap_coalesce g = true -> g_wrap_copy g = true -> snap_ok sn ->
+  (let c0 := bpp24_prelude g c sn in let sc := decide_sends g c0 (sn_ledval sn) in
+   bbox_fits g (snd sc) sn (plan_regions (snd sc) (fst sc) sn)) ->
+  model_update g c sn = (c', USent n hs false ovf) ->
+  phdr_count hs = Some n /\ n < 65535.
+Proof. exact model_update_count. Qed.
+
+(* totality: under the same conditions the model (and the count stage) never traps *)
+Theorem C03_model_update_total_unscaled : forall g c sn,
+  g_wrap_coalesce g = true -> snap_ok sn -> forall why, snd (model_update g c sn) <> UTrap why.
+Proof. exact model_update_total. Qed.
+
+Theorem C03_count_stage_total : forall ts pref lastrect cmw cmh maxrects region copyl npseudo,
+  1 <= cmw -> 1 <= cmh -> Forall nondeg region -> Forall nondeg copyl ->
+  announce_fixed ts pref lastrect cmw cmh maxrects region copyl npseudo <> None.
+Proof. exact announce_fixed_total. Qed.
 
 (* LastRect-terminated updates: only for a Tight client that enabled LastRect -- or by the
    collision of an exact count of 65535 with the sentinel (F5) *)
@@ -183,14 +225,17 @@ Proof. exact emit_region_inside. Qed.
 
 (* ---- C03_rects_inside (unscaled client): with the set semantics of the region mirror (C11) ----
    requestedRegion, built from any history of 16-bit requests, is well formed and inside the screen; *)
-Theorem C03_requested_inside : forall W H qs, Forall r16q qs ->
+Theorem C03_requested_inside_unscaled_fixedsize : forall W H qs, Forall r16q qs ->
   WF (fold_left (add_request W H) qs rgn_empty) /\ within W H (fold_left (add_request W H) qs rgn_empty).
 Proof. exact requested_within. Qed.
 
 (* then, for well-formed client regions, every rectangle of the region stage of
    rfbSendFramebufferUpdate (incl. the cursor area added for clients without cursor-shape updates)
-   is non-degenerate and inside the screen, and so are the copy rectangles AND their sources; *)
-Theorem C03_rects_inside : forall c1 s sn,
+   is non-degenerate and inside the screen, and so are the copy rectangles AND their sources.
+   Scope (suffix): unscaled client, screen size constant between the requests and the update -- after
+   rfbNewFramebuffer requestedRegion may lie outside the new screen, and a client without NewFBSize is not
+   told the new size (F22); *)
+Theorem C03_rects_inside_unscaled_fixedsize : forall c1 s sn,
   1 <= sn_fbw sn -> 1 <= sn_fbh sn ->
   WF (sn_mod sn) -> WF (sn_req sn) -> WF (sn_copy sn) -> within (sn_fbw sn) (sn_fbh sn) (sn_req sn) ->
   Forall (rect_in_screen (sn_fbw sn) (sn_fbh sn)) (pl_region (plan_regions c1 s sn)) /\
@@ -200,21 +245,23 @@ Proof. exact plan_inside. Qed.
 (* and every header the splitting loops emit for it (after the optional bounding-box coalescing) lies
    inside the screen, for every encoding.  (What is NOT implied: that the screen size is the size
    last announced to a client without NewFBSize -- finding F22.) *)
-Theorem C03_rects_inside_emitted : forall pref lastrect cmw cmh maxrects region ncopy npseudo n region' lm W H,
-  1 <= cmw -> 1 <= cmh -> Forall (rect_in_screen W H) region ->
-  announce pref lastrect cmw cmh maxrects region ncopy npseudo = Some (n, region', lm) ->
+Theorem C03_rects_inside_emitted_unscaled_fixedsize :
+  forall g pref lastrect cmw cmh maxrects region copyl npseudo n region' lm keep W H,
+  1 <= cmw -> 1 <= cmh -> Forall (rect_in_screen W H) region -> Forall (rect_in_screen W H) copyl ->
+  announce_sel g pref lastrect cmw cmh maxrects region copyl npseudo = Some (n, region', lm, keep) ->
   Forall (rect_in_screen W H) region' /\
   Forall (fun e => match e with
                    | EmKnown l => Forall (rect_in_screen W H) l
                    | EmData r => rect_in_screen W H r
                    | EmTrap => False end)
          (emit_region pref lastrect cmw cmh region').
-Proof. exact emitted_inside_screen. Qed.
+Proof. exact emitted_inside_screen_sel. Qed.
 
 Example C03_rects_inside_nonvacuous :
   let req := fold_left (add_request 20 10) [(3, 3, 0, 4); (15, 5, 100, 100); (0, 0, 4, 4)] rgn_empty in
-  rgn_iter false false req = [(0, 0, 4, 4); (15, 5, 20, 10)].
-Proof. reflexivity. Qed.
+  rgn_iter false false req = [(0, 0, 4, 4); (15, 5, 20, 10)] /\ Forall r16q [(3, 3, 0, 4); (15, 5, 100, 100); (0, 0, 4, 4)] /\
+  snap_ok (mkSnap (rgn_create_rect 0 0 20 10) req rgn_empty 0 0 0 0 0 0 None 0 20 10 50 48 48 1 32 0 0).
+Proof. exact rects_inside_example. Qed.
 
 (* ---- refutations: the faithful model violates the full statement; each witness is replayed on
    the real library by props/C03.py (findings F4, F4b, F5, F6) ---- *)
@@ -275,7 +322,7 @@ Theorem C03_caps_state : forall g latest c, reach g latest c -> pref_ok c /\ fla
 Proof. exact reach_ok. Qed.
 
 Example C03_caps_state_nonvacuous :
-  let g := mkCfg false true true true false false false in
+  let g := mkCfg false true true true false false false false in
   let c1 := fst (set_encodings g caps_init [enc_Tight; enc_LastRect; enc_RichCursor; enc_PointerPos]) in
   let c2 := fst (set_encodings g c1 [enc_NewFBSize; 12345]) in
   reach g [enc_NewFBSize; 12345] c2 /\
@@ -285,12 +332,29 @@ Proof. cbv zeta. split; [apply R_setenc with (latest := [enc_Tight; enc_LastRect
 
 (* every rectangle header of every update the model server emits uses: Raw, a pixel encoding
    named in some SetEncodings so far, CopyRect (only if the client's copyRegion is not empty),
-   the LastRect marker (only in LastRect mode), or a pseudo-encoding named in the LATEST SetEncodings *)
-Theorem C03_caps : forall g latest c sn c' n hs lm ovf,
+   the LastRect marker (only in LastRect mode), or a pseudo-encoding named in the LATEST SetEncodings.
+   PARTIAL: CopyRect and LastRect are not yet tied to the client's lists here -- see C03_caps below *)
+Theorem C03_caps_partial : forall g latest c sn c' n hs lm ovf,
   reach g latest c ->
   model_update g c sn = (c', USent n hs lm ovf) ->
   Forall (phdr_justified latest (c_named c) (negb (rgn_is_empty (sn_copy sn))) lm) hs.
 Proof. exact caps_update. Qed.
+
+(* C03_caps, strict: CopyRect and the LastRect marker too only if named in the LATEST SetEncodings.
+   Hypotheses: both count repairs in the source, [snap_ok], and the bookkeeping invariant "copyRegion is empty
+   whenever useCopyRect is off" -- which rfbScheduleCopyRegion maintains (C02) but SetEncodings did NOT before
+   notes/fix_C03_7.diff (finding F25: a pending copy survives the withdrawal of CopyRect); props/C03.py checks
+   the invariant on every snapshot of the real server.
+   Reading of "advertised" for PIXEL encodings: named in SOME SetEncodings so far -- the server keeps the
+   previous preferred encoding when a later list names no pixel encoding ("Sticking with ...", rfbserver.c) *)
+Theorem C03_caps : forall g latest c sn c' n hs lm ovf,
+  reach g latest c -> g_wrap_coalesce g = true -> g_wrap_copy g = true -> snap_ok sn ->
+  (let c0 := bpp24_prelude g c sn in let sc := decide_sends g c0 (sn_ledval sn) in
+   bbox_fits g (snd sc) sn (plan_regions (snd sc) (fst sc) sn)) ->
+  (c_copyrect c = false -> rgn_is_empty (sn_copy sn) = true) ->
+  model_update g c sn = (c', USent n hs lm ovf) ->
+  Forall (phdr_strict latest (c_named c)) hs.
+Proof. exact caps_update_strict. Qed.
 
 (* the cursor-position capability is never granted without cursor-shape updates *)
 Theorem C03_caps_cursorpos : forall g c l,
@@ -298,8 +362,8 @@ Theorem C03_caps_cursorpos : forall g c l,
 Proof. exact set_encodings_cursorpos_needs_shape. Qed.
 
 Example C03_caps_cursorpos_nonvacuous :
-  c_cursorpos (fst (set_encodings (mkCfg false false false false false false false) caps_init [enc_PointerPos])) = false /\
-  c_cursorpos (fst (set_encodings (mkCfg false false false false false false false) caps_init [enc_PointerPos; enc_XCursor])) = true.
+  c_cursorpos (fst (set_encodings (mkCfg false false false false false false false false) caps_init [enc_PointerPos])) = false /\
+  c_cursorpos (fst (set_encodings (mkCfg false false false false false false false false) caps_init [enc_PointerPos; enc_XCursor])) = true.
 Proof. split; reflexivity. Qed.
 
 (* F21 (repaired in /repo by 2d15d75): SetEncodings now resets enableExtendedClipboard with the other
@@ -310,7 +374,7 @@ Theorem C03_caps_extclip : forall g c l, g_reset_extclip g = true ->
 Proof. exact set_encodings_extclip. Qed.
 
 Example C03_caps_extclip_nonvacuous :
-  let g := mkCfg false false true false true false false in
+  let g := mkCfg false false true false true false false false in
   c_extclip (fst (set_encodings g caps_init [enc_ExtendedClipboard])) = true /\
   c_extclip (fst (set_encodings g (fst (set_encodings g caps_init [enc_ExtendedClipboard])) [enc_Raw])) = false.
 Proof. split; reflexivity. Qed.
@@ -319,8 +383,8 @@ Proof. split; reflexivity. Qed.
 Theorem C03_caps_extclip_refuted :
   exists g c l, c_extclip (fst (set_encodings g c l)) = true /\ ~ In enc_ExtendedClipboard l.
 Proof.
-  exists (mkCfg false false true false false false false),
-         (fst (set_encodings (mkCfg false false true false false false false) caps_init [enc_ExtendedClipboard])), [enc_Raw].
+  exists (mkCfg false false true false false false false false),
+         (fst (set_encodings (mkCfg false false true false false false false false) caps_init [enc_ExtendedClipboard])), [enc_Raw].
   split; [reflexivity|]. intros [H|[]]. discriminate.
 Qed.
 
@@ -329,13 +393,13 @@ Qed.
    degenerate and lies inside the framebuffer, for every 16-bit x, y, w, h (uint16 wrap-around of
    rectSwapIfLEAndClip included).  This discharges, for client requests, the non-degeneracy
    hypothesis of C03_update_count_partial (F4, F4b). *)
-Theorem C03_request_never_degenerate : forall fbw fbh x y w h x' y' w' h',
+Theorem C03_request_never_degenerate_unscaled : forall fbw fbh x y w h x' y' w' h',
   0 <= x < 65536 -> 0 <= y < 65536 -> 0 <= w < 65536 -> 0 <= h < 65536 ->
   clip_request fbw fbh x y w h = Some (x', y', w', h') ->
   x' = x /\ y' = y /\ 1 <= w' <= w /\ 1 <= h' <= h /\ x' + w' <= fbw /\ y' + h' <= fbh.
 Proof. exact clip_request_nondegenerate. Qed.
 
-Example C03_request_never_degenerate_nonvacuous :
+Example C03_request_never_degenerate_unscaled_nonvacuous :
   clip_request 20 10 3 3 0 4 = None /\ clip_request 20 10 3 3 4 0 = None /\
   clip_request 20 10 20 3 5 4 = None /\ clip_request 20 10 30000 3 5 5 = None /\
   clip_request 20 10 19 9 100 100 = Some (19, 9, 1, 1) /\ clip_request 20 10 0 0 20 10 = Some (0, 0, 20, 10).
